@@ -34,7 +34,7 @@ def work(patch):
         shutil.rmtree(d, ignore_errors=True)
 
 
-patches = sorted(glob.glob(os.path.join(a.dir, "*", "r*", "patch.diff")))
+patches = sorted(glob.glob(os.path.join(os.path.abspath(a.dir), "*", "r*", "patch.diff")))
 if a.only:
     patches = [p for p in patches if any(("/" + x + "/") in p for x in a.only.split(","))]
 with ProcessPoolExecutor(a.jobs) as ex:
